@@ -143,7 +143,12 @@ func c27ForwardCodec() *kit.Codec {
 		StrictStability: true,
 		Values:          values,
 		Seeds:           seeds,
-		Headers:         [][]byte{{1}, {2}, {3}, {3, 0, 0, 0, 0, 0, 1, 0, 0, 0, 0}, {3, 1, 1, 0, 0, 0, 1, 0, 0, 0, 0}, {1, 0, 0, 0, 1, 0, 0, 0, 0}, {2, 0, 0, 0, 0, 1, 0, 0, 0, 0}},
+		// the two rejecting paths of EncodeForwardRequest
+		FailEncode: []kit.Value{
+			{Label: "slot-0", V: propose.ForwardRequest{SlotID: 0, HashSlot: 1, Payload: c27Bytes(40, 1)}},
+			{Label: "empty-payload", V: propose.ForwardRequest{SlotID: 1, HashSlot: 1, WantResult: true}},
+		},
+		Headers: [][]byte{{1}, {2}, {3}, {3, 0, 0, 0, 0, 0, 1, 0, 0, 0, 0}, {3, 1, 1, 0, 0, 0, 1, 0, 0, 0, 0}, {1, 0, 0, 0, 1, 0, 0, 0, 0}, {2, 0, 0, 0, 0, 1, 0, 0, 0, 0}},
 	}
 }
 
